@@ -166,3 +166,9 @@ func VerifFromIntRange(y IntRange) [2]VerifBiggerInt {
 	q.fromIntRange(y)
 	return [2]VerifBiggerInt{verifFromBI(q[0]), verifFromBI(q[1])}
 }
+
+// VerifSharedValues returns copies of one, minusOne and sharedEmptyRange.
+func VerifSharedValues() (*big.Int, *big.Int, IntRange) {
+	return big.NewInt(0).Set(one), big.NewInt(0).Set(minusOne),
+		IntRange{bigIntNewSet(sharedEmptyRange[0]), bigIntNewSet(sharedEmptyRange[1])}
+}
